@@ -159,7 +159,7 @@ PROPS['C08'] = {
                '(Verus, unit writers) ERROR-CODE encodes as 00 00 class=code/100 number=code%100 + UTF-8 reason; UNKNOWN-ATTRIBUTES as the listed types, 16 bits big-endian, in order (list of ANY length); PASSWORD-ALGORITHMS as (algorithm, 0) entries in order (list of ANY length); length() of the three under the no-overflow type invariant len_ok',
                '(Verus, unit attrs, spec level over the two contracts) decode(encode(v)) = v: theorem_text_roundtrip for the five text attributes (the raw form of every in-limit text satisfies the decoder acceptance condition, and any result the decoder may return for it is the original text - UTF-8 encoding is injective), theorem_error_code_roundtrip for ERROR-CODE (codes 300..=699, reasons up to 763 bytes), theorem_u32_roundtrip / theorem_u64_roundtrip (unit writers) for PRIORITY and ICE-CONTROLLED/-CONTROLLING, theorem_password_algorithms_roundtrip + lemma_algos_entry (the written list satisfies the decoder acceptance condition and its k-th wire entry names the k-th algorithm); getters of every Verus-decoded type return the decoded field',
                '(Verus) encode side within reach: RawAttribute::new; USERNAME/REALM/NONCE/SOFTWARE get_type, length() == UTF-8 byte length, to_raw() carries the type code and exactly the UTF-8 bytes, getters return the text'],
-    'bounded': ['(in-place writers of 15 types + raw attributes and to_raw of the 8 variable-length types are proved in units writers / attrs, see C12) constructors X::new(&str) (vstd specifies str::len only for ASCII): BX; UNKNOWN-ATTRIBUTES decoder (chunks_exact iterator): Kani bounded (values of 0..=8 bytes) + BX, all lengths 0..=800 with ASCII / multi-byte UTF-8 / invalid UTF-8 fillers'],
+    'bounded': ['(in-place writers of 15 types + raw attributes and to_raw of the 8 variable-length types are proved in units writers / attrs, see C12) constructors X::new(&str) (vstd specifies str::len only for ASCII): BX; (the UNKNOWN-ATTRIBUTES decoder is PROVED since the third session: unit writers_lists, rule R13 + trusted ChunksExact specification) formerly: UNKNOWN-ATTRIBUTES decoder (chunks_exact iterator): Kani bounded (values of 0..=8 bytes) + BX, all lengths 0..=800 with ASCII / multi-byte UTF-8 / invalid UTF-8 fillers'],
     'trusted': _KX_TRUST,
 }
 PROPS['C12'] = {
@@ -281,8 +281,8 @@ PROPS['C03'] = {
                '(unit builder) [C03.sequence] theorem_guarded_builder_exposes_all + lemma_offsets_describe: for every builder obeying the grammar that the guarded operations are proved to preserve (ord()), the exposed attribute stream of its bytes - which MessageAttributesIter::next is proved to yield (unit parse) - consists of exactly the attributes of the builder in order, the k-th exposed TLV carrying the type and the value bytes of the k-th attribute, the sealing attributes included',
                '(in C02/C10) the parser accepts exactly the well-formed buffers and exposes them faithfully - so "parses back identically" reduces to "the builder concatenates header and attribute TLVs as specified" (now proved for write_into) plus the sealing values'],
     'bounded': ['(byte_len and build() are PROVED since rule R11) BX compares them with the independent serialiser, Kani k03_build_small (thorough tier) checks them on builders of two raw attributes with symbolic types / 0..=4 symbolic value bytes / all ids',
-                'build() (vec![0; byte_len] then write_into; iterator sum): assumed == header + TLVs in VX; MessageBuilder::clone: BX random builder programs',
-                'typed value equality after the round trip for UNKNOWN-ATTRIBUTES (decoder uses chunks_exact) and constructors: BX'],
+                'MessageBuilder::clone: BX random builder programs',
+                'typed value equality after the round trip end to end on the real builder / parser / typed decoders: BX (the per-type decode(encode(v)) == v theorems are in units attrs / writers / writers_lists, UNKNOWN-ATTRIBUTES included since the third session; that every one of the 19 types is covered by such a theorem or a complete Kani harness has not been re-audited, hence the level)'],
     'trusted': _BX_TRUST + ['AttributeWriteExt::write_into on dyn AttributeWrite / RawAttribute: assumed in unit builder with the contract proved in unit writers (same text); be_write_u128_at_slice / be_write_u16_slice shims (KX k_shim_u128)'],
 }
 PROPS['C11'] = {
@@ -324,12 +324,12 @@ for _p in ('C01', 'C02', 'C05', 'C06', 'C07', 'C08', 'C09', 'C10', 'C12', 'C13',
 LEVEL_TEXT = {
  'C01': "Proof: Verus discharges every index/slice/arithmetic/unwrap/unreachable/termination obligation of the decoding entry points (whole message, header, type, raw attribute, 14 typed decoders, iterator, validate_integrity) for ALL byte strings, with precondition `true` on the bytes (representation invariant wf_message for methods on an accepted message); Kani covers the remaining 5 typed decoders completely. Formatting, policing and tracing-subscriber clauses are outside both verifiers and are run by the bounded stand-in (catch_unwind + watchdog), listed as bounded. One known finding (D8) is reported as KNOWN-FINDING.",
  'C02': "Proof: `Message::from_bytes` is verified `Ok <==> wf_message(bytes)` for buffers of every length against a recursive spec predicate written from the statement (not from the code); header fields, the exposed attribute stream (iterator) and the header/declared-length error cases are postconditions; each interior rejection (attribute after integrity / after fingerprint with its type, fingerprint mismatch) is proved to point at a real witness in the buffer (unit parsecause). The lookups raw_attribute / has_attribute / attribute::<A>() are proved as well (rule R11 replaces the iterator adaptors find / any by their defining loops, the closures of the real code verbatim): they answer with the first attribute of the type in the exposed stream. Which of several applicable causes is reported is decided by the bounded differential against an independent reference decoder.",
- 'C03': "Exploration: the builder side is under Verus contracts - write_into writes header + padded TLVs in order for lists of any length (per-attribute writers proved under C12), every guarded operation keeps the ordering grammar, the sealing workers append the CRC / HMAC of build() with the adjusted length field - and the composition theorems show that these bytes satisfy wf_message (so the verified parser accepts them), have the stated length properties, and expose exactly the builder's attributes in order with their types and value bytes. byte_len / build (iterator map/sum) and the builder query helpers (iterator any/find) are proved too since rule R11 (adaptor chains replaced by their defining loops). What remains assumed or bounded: the crypto crates, clone(), and typed-value equality where a decoder is outside the verifier (UNKNOWN-ATTRIBUTES) - decided by random builder programs against an independent serialiser with independent HMAC/CRC; hence exploration.",
+ 'C03': "Exploration: the builder side is under Verus contracts - write_into writes header + padded TLVs in order for lists of any length (per-attribute writers proved under C12), every guarded operation keeps the ordering grammar, the sealing workers append the CRC / HMAC of build() with the adjusted length field - and the composition theorems show that these bytes satisfy wf_message (so the verified parser accepts them), have the stated length properties, and expose exactly the builder's attributes in order with their types and value bytes. byte_len / build (iterator map/sum) and the builder query helpers (iterator any/find) are proved too since rule R11 (adaptor chains replaced by their defining loops). What remains assumed or bounded: the crypto crates, clone(), and typed-value equality where a decoder is outside the verifier (UNKNOWN-ATTRIBUTES) - decided by random builder programs against an independent serialiser with independent HMAC/CRC. The UNKNOWN-ATTRIBUTES decoder and its round trip are proved since the third session; the level stays exploration because the coverage of all 19 types by round-trip theorems has not been re-audited end to end.",
  'C04': "Proof: `Message::validate_integrity` is verified for every accepted message and every credential against the RFC 8489 s14.5/14.6 specification (which exposed attribute is checked, HMAC input = prefix with the length field set to the end of that attribute, truncated SHA-256 lengths, MissingAttribute) with HMAC/MD5 as uninterpreted functions; the builder side (add_message_integrity appends the HMAC of build() with the adjusted length field; the sealed message meets exactly the premises of validate_integrity's Ok clauses) is proved as well. That the hmac/sha crates compute those functions, the key derivation (String concatenation: outside the verifier) and tamper-evidence on concrete messages are bounded (independent HMAC-SHA1/SHA256/MD5 implementation).",
  'C05': "Proof: whole-view postconditions of send / handle_stun / take_outstanding_request / request_transaction / cancel / cancel_retransmissions / configure_timeout / StunRequestState::poll and - since the third session - StunAgent::poll (its `for .. in values_mut()` loop replaced by its definition, rule R13, over trusted axioms for BTreeMap::values_mut) are proved by Verus for any number of outstanding transactions: a completion is reported only for an outstanding transaction with that verdict and removes exactly it; the exactly-once theorem is an induction over these postconditions. The bounded stand-in (exhaustive small-scope histories against an abstract agent) remains as cross-check of the trusted iterator axioms and witness finder.",
  'C06': "Proof: the per-request schedule (StunRequestState::new defaults and poll for schedules of any length and all instants) is proved by Verus; configure_timeout is proved as well for the property's configuration range (rule R11 replaces `(0..n).map(..).collect()` / `.fold(..)` by their defining loops; Duration arithmetic through trusted axioms): exactly `retransmits` entries initial_rto*2^i, the TCP sum, nothing else changed. The agent-level poll is proved too (rule R13 over trusted BTreeMap::values_mut axioms): WaitUntil(t) iff every outstanding transaction waits, t the earliest due instant; lemma_wait_until_law gives 'earlier: same t, no event; at t: an event'. Exhaustive small-scope and random histories (early/exact/late polls at microsecond resolution) remain as bounded cross-check.",
  'C07': "Proof: handle_stun's postcondition (delivered => outstanding and, if the request was sealed, remote credentials set and validate_integrity Ok; otherwise Drop with the whole abstract state unchanged) and request_had_credentials <=> builder has an integrity attribute are verified by Verus for all inputs; validate_integrity itself is C04. End-to-end with real HMACs is bounded.",
- 'C08': "Exploration: decode side proved - 14 typed decoders in Verus for value strings of ANY length (UTF-8 via vstd::utf8), 5 in Kani (complete); encode side proved for to_raw/length of the string types and the in-place writers of 15 types (C12). Still bounded only: UNKNOWN-ATTRIBUTES decoder (chunks_exact: no vstd specification, and the ghost-iterator traits cannot be implemented for a std type from outside vstd), the &str constructors - hence exploration.",
+ 'C08': "Exploration: decode side proved - 14 typed decoders in Verus for value strings of ANY length (UTF-8 via vstd::utf8), 5 in Kani (complete); encode side proved for to_raw/length of the string types and the in-place writers of 15 types (C12). The UNKNOWN-ATTRIBUTES decoder is proved too since the third session (rule R13 on `for .. in chunks_exact(2)` over a trusted ChunksExact specification; theorem_unknown_attributes_roundtrip). Still bounded only: the &str constructors (vstd specifies str::len only for ASCII) - hence exploration.",
  'C09': "Proof: an accepted buffer with a FINGERPRINT at offset o satisfies value == crc32(bytes[..o] with length field o+8-20) ^ 0x5354554e and o+8 == len (clause fp_ok of wf_message, verified for all buffers); XOR constant by Kani for all 2^32 values; the builder side (add_fingerprint appends crc32 of build() with the length field + 8, xor the constant; the sealed serialisation satisfies fp_ok and is accepted by the parser) is proved, build() included (rule R11). That Fingerprint::compute is CRC-32/ISO-HDLC and the corruption sweeps are bounded.",
  'C10': "Proof: the iterator is verified to yield exactly the exposure rule of the statement on every accepted message; the 'hence' clauses (non-sealing exposed attributes lie before the end of the first integrity attribute; prefix stability) are spec-level lemmas; validate_integrity checks an exposed attribute over that prefix (C04). The lookups raw_attribute / has_attribute / attribute::<A>() are proved to answer from that same exposed stream (rule R11: find / any replaced by their defining loops), so nothing hidden is reachable through them either.",
  'C11': "Exploration: the four guard functions of the real MessageBuilder are verified by Verus against the ordering rules of the statement (refused exactly when ..., refused => builder unchanged, accepted => appended), including the two query helpers has_attribute / has_any_attribute and build() (iterator adaptors replaced by their defining loops, rule R11); assumed: the hmac/crc crates and the smallvec stand-in. clone() (derived; Verus gives a derived Clone of a non-Copy type no specification) and the whole-sequence statement are decided by exhaustive operation sequences up to length 5/6 over the sealing alphabet plus random programs on the real builder - hence exploration. That every guarded operation keeps the ordering grammar, and that a builder obeying it serialises to a message the parser accepts, is proved (ord(), theorem_guarded_builder_parses).",
